@@ -240,7 +240,8 @@ func c14One(c *vf.Ctx, sub string, i int, r *rand.Rand, ids []Ident) {
 	// announce-triggered syncs finish asynchronously: logical quiescence
 	deadline := time.Now().Add(60 * time.Second)
 	for time.Now().Before(deadline) {
-		if tl.count("async.enter") == tl.count("async.exit") && tl.count("watch.swap.spawn") == tl.count("async.enter") && tl.count("event.emit.begin") == tl.count("event.emit.end") {
+		if tl.count("watch.recv") == tl.count("watch.swap.spawn")+tl.count("watch.swap.replaced") &&
+			tl.count("async.enter") == tl.count("async.exit") && tl.count("watch.swap.spawn") == tl.count("async.enter") && tl.count("event.emit.begin") == tl.count("event.emit.end") {
 			break
 		}
 		time.Sleep(500 * time.Microsecond)
